@@ -3,7 +3,7 @@
 # (/tmp/seed/<ID>/wt): patch applies, builds, pinned suite passes, demo fails with the
 # patch and passes without. Writes /tmp/seed/<ID>/out/<N>/VERIFY.json
 id="$1"; n="$2"
-d=/tmp/seed/$id/out/$n; wt=/tmp/seed/$id/wt
+root=${SEED_ROOT:-/tmp/seed}; d=$root/$id/out/$n; wt=$root/$id/wt
 export GOFLAGS=-mod=mod GOPROXY=off GOSUMDB=off GOTOOLCHAIN=local
 unset GOWORK
 cd "$wt" || exit 2
